@@ -162,6 +162,13 @@ func (c ConfigSpec) Bytes() (Config, error) {
 	if l := len(c.PublicName); l == 0 || l > 255 {
 		return nil, errors.New("invalid public name length")
 	}
+	// opaque public_key<1..2^16-1>; HpkeSymmetricCipherSuite cipher_suites<4..2^16-4>;
+	if len(c.PublicKey) == 0 {
+		return nil, errors.New("invalid public key length")
+	}
+	if len(c.CipherSuites) == 0 {
+		return nil, errors.New("no cipher suite")
+	}
 	b := cryptobyte.NewBuilder(nil)
 	b.AddUint16(c.Version)
 	b.AddUint16LengthPrefixed(func(b *cryptobyte.Builder) {
